@@ -150,6 +150,135 @@ m("C22", "harmless_reordered", POOL,
 """)],
   "OK", "harmless: compaction before the removals, the two removal calls swapped, locals renamed")
 
+# ---------------------------------------------------------------- C24
+BL_LOCK = """	db.setBallotLock.Lock()
+	defer db.setBallotLock.Unlock()
+"""
+PR_LOCK = """	db.setProposalLock.Lock()
+	defer db.setProposalLock.Unlock()
+"""
+m("C24", "ballot_no_lock", POOL, [(BL_LOCK, "")],
+  "VIOLATION", "SetBallot without the mutex (the defect fixed by dc3d60d)")
+m("C24", "proposal_no_lock", POOL, [(PR_LOCK, "")],
+  "VIOLATION", "SetProposal without the mutex (the defect fixed by dc3d60d)")
+m("C24", "proposal_overwrites_fact", POOL,
+  [("""	switch found, err := pst.Exists(key); {
+	case err != nil:
+		return false, e.Wrap(err)
+	case found:
+		return false, nil
+	}
+
+	batch := pst.NewBatch()
+	defer batch.Reset()
+
+	_, prb, err := EncodeFrame(db.enc, nil, pr)""", """	switch _, err := pst.Exists(key); {
+	case err != nil:
+		return false, e.Wrap(err)
+	}
+
+	batch := pst.NewBatch()
+	defer batch.Reset()
+
+	_, prb, err := EncodeFrame(db.enc, nil, pr)""")],
+  "VIOLATION", "SetProposal overwrites the proposal already stored for the fact")
+m("C24", "ballot_overwrites", POOL,
+  [("""	switch found, err := pst.Exists(key); {
+	case err != nil:
+		return false, e.Wrap(err)
+	case found:
+		return false, nil
+	default:
+		_, b, err := EncodeFrame(db.enc, nil, bl)""", """	switch _, err := pst.Exists(key); {
+	case err != nil:
+		return false, e.Wrap(err)
+	default:
+		_, b, err := EncodeFrame(db.enc, nil, bl)""")],
+  "VIOLATION", "SetBallot overwrites the ballot already stored")
+m("C24", "clean_one_too_shallow", POOL,
+  [("""		for range make([]int, deep) {
+			height = height.SafePrev()
+		}""", """		for range make([]int, deep-1) {
+			height = height.SafePrev()
+		}""")],
+  "VIOLATION", "clean-up removes entries only depth-1 below the newest height")
+m("C24", "clean_keeps_boundary", POOL,
+  [("		if j != nil && j.(base.Height) > height {                         //nolint:forcetypeassert //...",
+    "		if j != nil && j.(base.Height) >= height {                        //nolint:forcetypeassert //...")],
+  "VIOLATION", "clean-up keeps the entries exactly depth below the newest height (model mismatch only: the property says 'only', so no oracle failure)")
+m("C24", "ballot_key_ignores_flag", "isaac/database/leveldb.go",
+  [("""	s := []byte("-")
+	if isSuffrageConfirm {
+		s = []byte("+")
+	}
+""", """	s := []byte("-")
+	_ = isSuffrageConfirm
+""")],
+  "VIOLATION", "the ballot key ignores the suffrage-confirm flag")
+m("C24", "harmless_key_later", POOL,
+  [("""	key := leveldbBallotKey(bl.Point(), isaac.IsSuffrageConfirmBallotFact(bl.SignFact().Fact()))
+
+	var blb []byte
+""", """	issc := isaac.IsSuffrageConfirmBallotFact(bl.SignFact().Fact())
+
+	var blb []byte
+
+	key := leveldbBallotKey(bl.Point(), issc)
+""")],
+  "OK", "harmless: the ballot key is computed in two statements, after the declaration")
+
+# ---------------------------------------------------------------- C38
+MAKENEW_LOOKUP = """	switch pr, found, err := p.pool.ProposalByPoint(point, p.local.Address(), previousBlock); {
+	case err != nil:
+		return nil, errors.WithStack(err)
+	case found:
+		return pr, nil
+	}
+
+	ops, err := p.getOperations(ctx, point.Height())"""
+m("C38", "make_skips_pool_lookup", MAKER,
+  [(MAKENEW_LOOKUP, "	ops, err := p.getOperations(ctx, point.Height())")],
+  "VIOLATION", "makeNew does not consult the pool before making a new proposal")
+m("C38", "prefer_empty_skips_pool_lookup", MAKER,
+  [("""	switch pr, found, err := p.pool.ProposalByPoint(point, p.local.Address(), previousBlock); {
+	case err != nil:
+		return nil, err
+	case found:
+		return pr, nil
+	}
+
+	pr, err := p.makeProposal(point, previousBlock, nil)""", "	pr, err := p.makeProposal(point, previousBlock, nil)")],
+  "VIOLATION", "preferEmpty does not consult the pool")
+m("C38", "make_no_lock", MAKER,
+  [("""	ctx context.Context, point base.Point, previousBlock util.Hash,
+) (base.ProposalSignFact, error) {
+	p.l.Lock()
+	defer p.l.Unlock()
+
+	e := util.StringError("make proposal, %q", point)""", """	ctx context.Context, point base.Point, previousBlock util.Hash,
+) (base.ProposalSignFact, error) {
+	e := util.StringError("make proposal, %q", point)""")],
+  "VIOLATION", "Make does not take the maker's mutex")
+m("C38", "lookup_wrong_key", MAKER,
+  [(MAKENEW_LOOKUP, MAKENEW_LOOKUP.replace("p.pool.ProposalByPoint(point, p.local.Address(), previousBlock)", "p.pool.ProposalByPoint(point.NextRound(), p.local.Address(), previousBlock)"))],
+  "VIOLATION", "makeNew looks the pool up under the next round's key")
+m("C38", "harmless_reordered_checks", MAKER,
+  [("""	case point.Height() > m.Manifest().Height()+1: // NOTE empty proposal for unreachable point
+		pr, err := p.preferEmpty(context.Background(), point, previousBlock)
+
+		return pr, e.Wrap(err)
+	case point.Height() == m.Manifest().Height()+1 && !previousBlock.Equal(m.Manifest().Hash()):
+		pr, err := p.preferEmpty(context.Background(), point, previousBlock)
+
+		return pr, e.Wrap(err)
+	}""", """	case point.Height() == m.Manifest().Height()+1 && !m.Manifest().Hash().Equal(previousBlock),
+		point.Height() > m.Manifest().Height()+1: // NOTE empty proposal for unreachable point
+		empty, err := p.preferEmpty(context.Background(), point, previousBlock)
+
+		return empty, e.Wrap(err)
+	}""")],
+  "OK", "harmless: the two empty-proposal cases merged and swapped")
+
 
 def main():
     want = set(sys.argv[1:])
